@@ -199,7 +199,7 @@ K_STRBITS = [
 
 PROPS["C01"] = {
     "level": "proof",
-    "verus": [{"unit": "recognisers", "rlimit": 200}, {"unit": "errors", "rlimit": 200}, {"unit": "number", "rlimit": 400}, {"unit": "walkers", "rlimit": 200}, {"unit": "iterators", "rlimit": 200}, {"unit": "strings", "rlimit": 200}, {"unit": "decoder", "rlimit": 300}, {"unit": "decoder_inplace", "rlimit": 300}, {"unit": "serde_access", "rlimit": 200}, {"unit": "unchecked", "rlimit": 300}, {"unit": "getmany", "rlimit": 300}, {"unit": "owned_load", "rlimit": 400}, {"unit": "walkers_unchecked", "rlimit": 400}, {"unit": "container", "rlimit": 400}, {"unit": "formatter", "rlimit": 200}, {"unit": "serializer", "rlimit": 300}],
+    "verus": [{"unit": "recognisers", "rlimit": 200}, {"unit": "errors", "rlimit": 200}, {"unit": "number", "rlimit": 400}, {"unit": "walkers", "rlimit": 200}, {"unit": "iterators", "rlimit": 200}, {"unit": "strings", "rlimit": 200}, {"unit": "decoder", "rlimit": 300}, {"unit": "decoder_inplace", "rlimit": 300}, {"unit": "serde_access", "rlimit": 200}, {"unit": "unchecked", "rlimit": 400}, {"unit": "getmany", "rlimit": 300}, {"unit": "owned_load", "rlimit": 400}, {"unit": "walkers_unchecked", "rlimit": 400}, {"unit": "container", "rlimit": 400}, {"unit": "formatter", "rlimit": 200}, {"unit": "serializer", "rlimit": 300}],
     "kani": K_UNICODE + K_BLOCK[3:] + K_QUOTE[1:] + K_META[:1] + K_META[2:] + K_READER + K_OWNED[:2] + K_OWNED[-1:],
     "syntactic": [{"name": "recursion guard stays alive while the nested value is visited", "fn": synt.depth_guard_held},
                   {"name": "input-driven parser recursion has a depth budget", "fn": synt.parser_recursion_bounded}],
@@ -214,11 +214,11 @@ PROPS["C01"] = {
 
 PROPS["C13"] = {
     "level": "proof",
-    "verus": [{"unit": "owned_load", "rlimit": 400}],
+    "verus": [{"unit": "owned_load", "rlimit": 400}, {"unit": "unchecked", "rlimit": 400}],
     "kani": K_OWNED,
     "trusted_base": [T1, T2, T6, T8, VSTD, KANI, T4, PERR, "FastStr / Bytes drop glue excluded from the harnesses (mem::forget)",
                      "unit owned_load: OwnedLazyValue is opaque — it enters through a ghost shape() and the contracts of its one-line constructors (from_non_esc_str, from_faststr, From<bool/()/Number/Vec<..>>, new keeping literals parsed: the latter is what the Kani harnesses owned_new_* check); FastStr / JsonSlice::as_faststr keep the bytes (T4)",
-                     "skip_one_unchecked is ASSUMED to agree with the validating skipper on a well-formed value (its string and number branches are proved in unit unchecked, skip_container is not); parse_str / Parser::parse_number enter through assumed contracts (units strings / number)",
+                     "skip_one_unchecked enters through the contract proved in unit unchecked (== skip_one on a well-formed value followed by whitespace and `,` `]` `}` or the end); parse_str / Parser::parse_number enter through assumed contracts (units strings / number)",
                      "three declared substitutions in get_owned_lazyvalue: `Some(b't') if self.match_literal(..)? => return ..` becomes `Some(b't') => { if self.match_literal(..)? { return .. } unreachable!() }` — Verus proves the unreachable!() (match_literal never returns Ok(false)), so the fall-through of the original guard is dead",
                      "accessor agreement with the DOM (as_*, get on LazyRaw incl. the lock-free cache: C18), verbatim re-serialization (impl Serialize), clone/mutation histories are NOT under contract"],
     "level_text": "Verus proof that the parser builds owned lazy values as faithful one-level views: get_owned_lazyvalue (strict: only on a well-formed value; both modes: on a well-formed value it stops just after it and keeps exactly its source span, literals parsed) and load_owned_lazyvalue (the children of a well-formed array / object are exactly the source spans of its elements / members in order, keys decoded; a well-formed array is never refused); Kani/CBMC proof of the representation invariant that makes the lazy accessors total: every constructor of OwnedLazyValue from well-formed raw text (new, From<LazyValue>) yields a value whose get_type() is defined and equals the type the text denotes, for every JSON type including true/false/null",
@@ -256,12 +256,12 @@ PROPS["C03"] = {
 
 PROPS["C12"] = {
     "level": "proof",
-    "verus": [{"unit": "iterators", "rlimit": 200}, {"unit": "unchecked", "rlimit": 300}],
+    "verus": [{"unit": "iterators", "rlimit": 200}, {"unit": "unchecked", "rlimit": 400}],
     "kani": [],
     "trusted_base": [T1, T2, T4, T6, T8, VSTD, PERR,
                      "R8 guard lowering (match guards moved into the scrutinee tuple) applied to parse_array_elem_lazy / parse_entry_lazy",
                      "parse_str acceptance contract assumed in this unit (Ok ==> exactly one grammar-valid string consumed)",
-                     "unchecked iterators: of skip_one_unchecked's branches, the string skipper and the number skipper (skip_number_unsafe, on a well-formed number in a well-formed context: found F15) are proved to end where the validating skipper ends (unit unchecked); skip_container and the dispatch itself are not under contract; get_next_token is proved in the same unit (32-lane loop + scalar tail: first byte of the token set at/after the reader)",
+                     "unchecked iterators: skip_one_unchecked (dispatcher + string, number [found F15], literal and container branches) is proved in unit unchecked to return exactly what skip_one returns on a well-formed value followed by whitespace and `,` `]` `}` or the end; the unchecked iterator drivers themselves (check == false paths of parse_array_elem_lazy / parse_entry_lazy) use it through that contract but their per-call agreement with the checked drivers is not separately stated",
                      "LazyValue::new / JsonSlice carriers (Bytes, FastStr) are opaque (T4)"],
     "level_text": "Verus proof of the per-call contract of the checked array/object iterators: first call demands the opening bracket, every call yields exactly the next well-formed element's span (after a correct separator / name / colon) or the end or an error, and after an error or the end the iterator yields nothing and does not move (latch); by induction over calls this is the statement",
     "level_note": "checked iterators over the bounds-checked reader; key decoding is parse_str (assumed here)",
@@ -314,14 +314,14 @@ PROPS["C09"] = {
 
 PROPS["C10"] = {
     "level": "proof",
-    "verus": [{"unit": "walkers", "rlimit": 200}, {"unit": "unchecked", "rlimit": 300}, {"unit": "walkers_unchecked", "rlimit": 400}, {"unit": "container", "rlimit": 400}],
+    "verus": [{"unit": "walkers", "rlimit": 200}, {"unit": "unchecked", "rlimit": 400}, {"unit": "walkers_unchecked", "rlimit": 400}, {"unit": "container", "rlimit": 400}],
     "kani": K_BITS + K_PXOR + K_STRBITS + K_UNCHECKED,
     "trusted_base": [T1, T2, T3, T4, T6, T8, VSTD, KANI, PERR,
                      "skip_string_unchecked is proved for every WELL-FORMED literal (its unsafe contract); nothing is claimed for it on malformed input",
-                     "skip_container / skip_container_loop (bracket counting over 64-bit masks) is NOT decided: CBMC does not finish; it enters the unchecked walkers through an assumed contract (well-formed container => stops just after its closing bracket); get_next_token is proved in unit unchecked (the other units use that contract), with a bounded Kani twin in the thorough tier; three declared substitutions in get_next_token: `r` alias of self.read, `tokens.iter().take(N)` -> `tokens.iter()` (N is the array length), `vor |= x` -> `vor = vor | x` (both operators are proved equal lane-wise under C17)",
+                     "skip_container / skip_container_loop (bracket counting over 64-bit masks, zero-padded tail) are proved in unit container against the scalar bracket scan (specs/scan.rs), and theorem_container_scan (specs/scan_grammar.rs, proved by induction over the grammar) shows that this scan closes exactly at the grammar's end of a well-formed container; the walker units use skip_container through that contract; ASSUMED there: get_string_bits' contract (= Kani harness string_bits_all, all 64-byte blocks x 4 carry states), u64::count_ones == population count, the 64-lane vector contracts (T2), copy_prefix (slice copy helper); declared substitutions in the two functions: mask temporaries named (`let rm = ..bitmask(); let mut rbrace = rm & !instring`), `lbrace_num < rbrace_num` on the references -> on the values, debug_assert_eq! -> debug_assert!, reader alias, as_array64, `remain[..n].copy_from_slice(..unwrap_unchecked())` -> copy_prefix; get_next_token is proved in unit unchecked (the other units use that contract), with a bounded Kani twin in the thorough tier; three declared substitutions in get_next_token: `r` alias of self.read, `tokens.iter().take(N)` -> `tokens.iter()` (N is the array length), `vor |= x` -> `vor = vor | x` (both operators are proved equal lane-wise under C17)",
                      "decoded()/decodable() of member names are uninterpreted in unit walkers (decoder contracts: C09)"],
-    "level_text": "Verus proof that the checked walkers get_from_object_checked / get_from_array_checked stop exactly at the value of the FIRST member whose decoded name equals the key (resp. the i-th element) and only after a well-formed prefix (object_lookup / array_lookup specs); Verus proof that the UNCHECKED walkers get_from_object / get_from_array, started on a well-formed value, give the same answer as the checked ones (same lookup specs); Verus proof that skip_string_unchecked — 32-lane loop with the escape carry, early-exit test and scalar tail — and skip_number_unsafe end on every well-formed literal of any length exactly where the validating skipper ends, with the same escape status; Kani/CBMC complete proofs of the unchecked skipper's bit kernels (escaped bits with carry, prefix xor, the 64-byte in-string mask with both carries)",
-    "level_note": "unchecked side: walkers, string and number skippers proved; skip_container (bracket-counting bitmap loop) enters through an ASSUMED contract (its bit kernels are proved by Kani); get_next_token is proved in unit unchecked and used through that contract elsewhere; get_from_with_iter's generic path loop and the input carriers are not under contract",
+    "level_text": "Verus proof that the checked walkers get_from_object_checked / get_from_array_checked stop exactly at the value of the FIRST member whose decoded name equals the key (resp. the i-th element) and only after a well-formed prefix (object_lookup / array_lookup specs); Verus proof that the UNCHECKED walkers get_from_object / get_from_array, started on a well-formed value, give the same answer as the checked ones (same lookup specs); that the bitmap container skipper skip_container / skip_container_loop stops exactly at the closing bracket of its scalar definition, which is the grammar's (theorem_container_scan); that skip_one_unchecked returns exactly what skip_one returns on a well-formed value; Verus proof that skip_string_unchecked — 32-lane loop with the escape carry, early-exit test and scalar tail — and skip_number_unsafe end on every well-formed literal of any length exactly where the validating skipper ends, with the same escape status; Kani/CBMC complete proofs of the unchecked skipper's bit kernels (escaped bits with carry, prefix xor, the 64-byte in-string mask with both carries)",
+    "level_note": "unchecked side: walkers, dispatcher skip_one_unchecked, string / number / container skippers and the token search are all proved to agree with the validating code on well-formed input; the 64-byte in-string mask kernel enters through its Kani-proved contract; get_from_with_iter's generic path loop and the input carriers are not under contract",
     "technique": TECH_K,
     "explanation": "bit kernels of the unchecked skipper equal their scalar definitions",
 }
